@@ -24,9 +24,17 @@ static std::string attr(const DOMElement* e, const char* name) {
 	return X(e->getAttribute(n)).str();
 }
 
+#include <chrono>
+static bool g_stamp = false;                                      // api op `T`: "@<ms>" tokens before events and content
+static std::chrono::steady_clock::time_point g_stampT0;
 struct Rec {
 	std::vector<std::string> toks;
 	void add(const std::string& t) { toks.push_back(t); }
+	void stamp() {
+		if (!g_stamp) return;
+		long ms = (long)std::chrono::duration_cast<std::chrono::milliseconds>(std::chrono::steady_clock::now() - g_stampT0).count();
+		toks.push_back("@" + std::to_string(ms));
+	}
 };
 
 class RecMonitor : public InterpreterMonitor {
@@ -56,12 +64,12 @@ public:
 		std::string uv = attr(x, "uvid");
 		return uv.size() ? uv : "?" + X(x->getLocalName()).str();
 	}
-	void beforeProcessingEvent(const std::string& sid_, const Event& e) { if (!mine(sid_)) return; r->add("bpe:" + e.name); }
+	void beforeProcessingEvent(const std::string& sid_, const Event& e) { if (!mine(sid_)) return; r->stamp(); r->add("bpe:" + e.name); }
 	void beforeMicroStep(const std::string& sid_) { if (!mine(sid_)) return; r->add("bm"); }
 	void beforeExitingState(const std::string& sid_, const std::string&, const DOMElement* s) { if (!mine(sid_)) return; r->add("bx:" + sid(s)); }
 	void afterExitingState(const std::string& sid_, const std::string&, const DOMElement* s) { if (!mine(sid_)) return; r->add("ax:" + sid(s)); }
-	void beforeExecutingContent(const std::string& sid_, const DOMElement* x) { if (!mine(sid_)) return; r->add("bc:" + xid(x)); }
-	void afterExecutingContent(const std::string& sid_, const DOMElement* x) { if (!mine(sid_)) return; r->add("ac:" + xid(x)); }
+	void beforeExecutingContent(const std::string& sid_, const DOMElement* x) { if (!mine(sid_)) return; r->stamp(); r->add("bc:" + xid(x)); }
+	void afterExecutingContent(const std::string& sid_, const DOMElement* x) { if (!mine(sid_)) return; r->add("ac:" + xid(x)); r->stamp(); }
 	void beforeUninvoking(const std::string& sid_, const DOMElement* x, const std::string&) { if (!mine(sid_)) return; r->add("bu:" + attr(x, "id")); }
 	void afterUninvoking(const std::string& sid_, const DOMElement* x, const std::string&) { if (!mine(sid_)) return; r->add("au:" + attr(x, "id")); }
 	void beforeTakingTransition(const std::string& sid_, const DOMElement* t) { if (!mine(sid_)) return; r->add("bt:" + tid(t)); }
@@ -278,7 +286,8 @@ int cmd_serial(int argc, char** argv) {
 
 // api: <engine>\t<chart s-expression (ignored)>\t<ops>\t<hex SCXML text>
 //   ops (comma separated): s = one step(0); q = step until IDLE/FINISHED (cap 60); e:<name> = receive();
-//   c = cancel(); r = reset(); d = destroy the interpreter and create a new one; g = getState()
+//   c = cancel(); r = reset(); d = destroy the interpreter and create a new one; g = getState();
+//   T = from here on a token "@<ms>" precedes every bpe:/bc: token and follows every ac: token (monotonic clock)
 static void nameAnon(Interpreter& interp) {
 	int k = 0;
 	std::function<void(DOMElement*)> name = [&](DOMElement* e) {
@@ -329,7 +338,9 @@ static std::string apiOne(const std::string& engine, const std::string& ops, con
 		interp = &makeInterp(engine, xml, rec);
 		nameAnon(*interp);
 		for (const std::string& op : uv::split(ops, ',')) {
-			if (op == "s") {
+			if (op == "T") {
+				g_stamp = true; g_stampT0 = std::chrono::steady_clock::now();
+			} else if (op == "s") {
 				InterpreterState s = interp->step(0);
 				rec.add(std::string("ret:") + retName(s));
 				rec.add(cfgToken(*interp));
